@@ -218,3 +218,52 @@ def _nan_in(m):
         if isinstance(v, float) and math.isnan(v):
             return True
     return False
+
+
+def replay_from_pb(wm, mc):
+    """Native replay of a refuted from_pb field clause: the counter-model's field values are put into a real wire message,
+    the real <Model>.from_pb runs and the clause is re-evaluated from the property's wording (not from the code)."""
+    def replay(o):
+        import re
+        from aioesphomeapi import api_pb2, model as M
+        from google.protobuf.descriptor import FieldDescriptor as FD
+        mm = re.search(r"/field:(\w+)/", o["id"] if "id" in o else o.get("goal", ""))
+        if mm is None:
+            return None, "no native evaluator for this clause"
+        fname = mm.group(1)
+        msg = getattr(api_pb2, wm)()
+        fd = msg.DESCRIPTOR.fields_by_name.get(fname)
+        if fd is None:
+            return None, f"message {wm} has no field {fname}"
+        raw = (o.get("model") or {}).get(f"data.{fname}")
+        rep = fd.is_repeated if hasattr(fd, "is_repeated") else fd.label == FD.LABEL_REPEATED
+        try:
+            if isinstance(raw, dict) and "bytes" in raw:
+                raw = bytes(raw["bytes"])
+            if rep:
+                getattr(msg, fname).extend([raw] if isinstance(raw, (str, bytes)) else list(raw or []))
+            elif raw is not None:
+                if fd.type == FD.TYPE_FLOAT:
+                    raw = struct.unpack("<f", struct.pack("<f", float(raw)))[0]       # a value a float32 field can actually carry
+                setattr(msg, fname, raw)
+        except Exception as e:      # noqa: BLE001  (the model's value does not fit the field: not a valid wire message)
+            return None, f"counter-model value {raw!r} does not fit {wm}.{fname}: {type(e).__name__}"
+        try:
+            res = getattr(M, mc).from_pb(msg)
+        except Exception as e:      # noqa: BLE001
+            return True, f"{mc}.from_pb({wm}({fname}={raw!r})) raised {type(e).__name__}: {e}"
+        got, want = getattr(res, fname), getattr(msg, fname)
+        if fd.type == FD.TYPE_ENUM:
+            wire = {v.number for v in fd.enum_type.values}
+            if rep:
+                holds = [int(x) for x in got] == [x for x in want if x in wire]
+            else:
+                holds = (got is None and want not in wire) or (got is not None and int(got) == want and (want in wire or not hasattr(got, "name")))
+        elif fd.type == FD.TYPE_FLOAT and not rep:
+            holds = got == want or got == _round7(want) or (math.isnan(got) and math.isnan(want))
+        elif rep:
+            holds = list(got) == list(want)
+        else:
+            holds = got == want
+        return (not holds), f"{mc}.from_pb({wm}({fname}={want!r})).{fname} == {got!r}"
+    return replay
